@@ -132,6 +132,8 @@ struct Expect {
 }
 
 struct Job {
+    /// host functions declared in a second root file given to `compile_bytecode_with_host_funcs`
+    host_file: bool,
     src: String,
     class: &'static str,
     sched: Schedule,
@@ -470,14 +472,14 @@ fn main() {
     for _ in 0..n {
         let (src, expect, class) = gen_trailing_decl_program(&mut ctx.rng);
         let sched = random_schedule(&mut ctx.rng);
-        jobs.push(Job { src, class, sched, expect, model_host: None });
+        jobs.push(Job { host_file: false, src, class, sched, expect, model_host: None });
     }
     for i in 0..(3 * n + n / 2 + n) {
         if i >= 3 * n + n / 2 {
             let (src, expect, class) = gen_pending_task_program(&mut ctx.rng);
             // budgets > 1: after main's failing / last step the task reaches its next host call in the same slice
             let b = *ctx.rng.pick(&[2u32, 3, 7, 100, 1_000_000]);
-            jobs.push(Job { src, class, sched: Schedule::constant(b), expect, model_host: None });
+            jobs.push(Job { host_file: false, src, class, sched: Schedule::constant(b), expect, model_host: None });
             continue;
         }
         let (src, expect, class, model_host) = match i % 7 {
@@ -497,16 +499,27 @@ fn main() {
             }
         };
         let sched = random_schedule(&mut ctx.rng);
-        jobs.push(Job { src, class, sched, expect, model_host });
+        // a third of the host-call programs declare their host functions in a second root file
+        if src.starts_with(HOST_DECLS) && i % 3 == 0 {
+            let body = format!("use hostfns\n{}", &src[HOST_DECLS.len()..]);
+            jobs.push(Job { host_file: true, src: body, class: "host:decls-in-host-file", sched, expect, model_host });
+            continue;
+        }
+        jobs.push(Job { host_file: false, src, class, sched, expect, model_host });
     }
     // every run: at most MAX_CALLS calls (a runtime that never reports the error must not hang the check) and,
     // once completion or failure was reported, two more calls without servicing anything
     const MAX_CALLS: usize = 20_000;
     let results = par_map(&jobs, |j| {
         let mut h = host_fn();
-        match compile_program(&j.src) {
+        let compiled = if j.host_file { compile_program_hostfile(&j.src, "hostfns.abra", HOST_DECLS) } else { compile_program(&j.src) };
+        match compiled {
             Ok(mk) => run_traced_after(&mk, &j.sched, 300_000, &mut h, &[3, 500], MAX_CALLS),
-            Err(_) => run_traced(&j.src, &j.sched, 300_000, &mut h),
+            Err(o) => {
+                let mut t = run_traced("", &j.sched, 0, &mut h);
+                t.outcome = o;
+                t
+            }
         }
     });
     let names = host_names();
@@ -607,6 +620,9 @@ fn main() {
                     ctx.count(&format!("after:{}-with-task-pending", if last.status == "done" { "done" } else { "error" }));
                 }
             }
+        }
+        for a in &t.accessor_issues {
+            pf.push(format!("accessor disagrees with the status: {a} :: {} :: {}", j.sched.describe(), prog()));
         }
         if t.call_bound_hit {
             pf.push(format!(
